@@ -1,10 +1,11 @@
 (* The program language shared by the model and the Rust harness, and its expansion into the
    runtime-call trees of Engine/Exec.v.  Each operation is expanded into exactly the segments its
-   Rust implementation executes between calls of thread::switch().  No proofs in this file. *)
+   Rust implementation executes between calls of thread::switch() (see Lang/ThreadOps.v,
+   Lang/SyncOps.v, Lang/SyncOps2.v).  No proofs in this file. *)
 From Coq Require Import List NArith Bool Arith.
 From SV Require Import Clock.VClock Prim.Objects Prim.Atomic Engine.Exec.
-From SV Require Export Lang.Code.
-From SV Require Import Prim.Semaphore Lang.SyncOps.
+From SV Require Export Lang.Code Lang.ThreadOps.
+From SV Require Import Prim.Semaphore Lang.SyncOps Lang.SyncOps2.
 Import ListNotations.
 
 Inductive op :=
@@ -28,7 +29,18 @@ Inductive op :=
 | PUnlock (m : nat)                (* drop of the most recent guard of m held by this task *)
 | PRwLock (r : nat) (write : bool) (* RwLock::read / write *)
 | PRwTry (r : nat) (write : bool)
-| PRwUnlock (r : nat).             (* drop of the most recent guard of r held by this task *)
+| PRwUnlock (r : nat)              (* drop of the most recent guard of r held by this task *)
+| PCvWait (cv m : nat)             (* Condvar::wait with the task's guard of mutex m *)
+| PCvNotify (cv : nat) (all : bool)
+| PSend (ch slot : nat) (v : N)    (* Sender/SyncSender::send through sender endpoint `slot` *)
+| PTrySend (ch slot : nat) (v : N)
+| PRecv (ch : nat)
+| PTryRecv (ch : nat)
+| PDropTx (ch slot : nat)          (* drop of a sender endpoint *)
+| PDropRx (ch : nat)               (* drop of the receiver *)
+| PBarrier (b : nat)               (* Barrier::wait *)
+| PCallOnce (o : nat) (body : nat) (* Once::call_once(|| body) *)
+| PIsCompleted (o : nat).
 
 (* result tags used in EvOp records; the harness prints the same numbers *)
 Definition TAG_SPAWN : N := 1.  Definition TAG_JOIN : N := 2.   Definition TAG_YIELD : N := 3.
@@ -38,94 +50,15 @@ Definition TAG_SEMACQ : N := 10. Definition TAG_SEMTRY : N := 11. Definition TAG
 Definition TAG_SEMCLOSE : N := 13. Definition TAG_SEMAVAIL : N := 14.
 Definition TAG_LOCK : N := 15. Definition TAG_TRYLOCK : N := 16. Definition TAG_UNLOCK : N := 17.
 Definition TAG_RWLOCK : N := 18. Definition TAG_RWTRY : N := 19. Definition TAG_RWUNLOCK : N := 20.
-
-(* ---- thread_fn epilogue (shuttle-engine/src/thread_support.rs) ---- *)
-Definition thread_epilogue : code :=
-  atomic_b (fun e s => match exit_truncates e with Some b => Some (e, s, b) | None => None end)
-    (fun b => switch_if b
-      (atomic_u (fun e s =>
-         match me e with
-         | None => None
-         | Some t =>
-           match e_take_waiter e t with
-           | None => None
-           | Some (e', None) => Some (e', s)
-           | Some (e', Some w) => match e_unblock e' w with Some e'' => Some (e'', s) | None => None end
-           end
-         end) Ret)).
-
-(* ---- JoinHandle::join (shuttle-std/src/thread.rs) ---- *)
-Definition join_code (target : nat) (k : code) : code :=
-  atomic_b (fun e s => match get_task e target with Some tk => Some (e, s, is_finished tk) | None => None end)
-    (fun fin => switch_if fin
-      (atomic_b (fun e s =>
-          match me e with
-          | None => None
-          | Some m =>
-            match e_set_waiter e target m with
-            | None => None
-            | Some (e', true) => match e_block e' m false with Some e'' => Some (e'', s, true) | None => None end
-            | Some (e', false) => Some (e', s, false)
-            end
-          end)
-        (fun should_block => switch_if should_block
-          (atomic_u (fun e s =>
-              match me e, e_clock e target with
-              | Some m, Some c => match e_update_clock e m c with Some e' => Some (e', s) | None => None end
-              | _, _ => None
-              end) k)))).
-
-(* ---- yield_now, park, unpark ---- *)
-Definition yield_code (k : code) : code :=
-  atomic_u (fun e s => match me e with
-                       | Some m => match e_waker_wake e m with Some e' => Some (e_request_yield e', s) | None => None end
-                       | None => None end)
-    (Switch k).
-
-Definition park_code (k : code) : code :=
-  atomic_b (fun e s => match me e with
-                       | Some m => match e_park e m with
-                                   | Some (e', true) => Some (e_request_yield e', s, true)
-                                   | Some (e', false) => Some (e', s, false)
-                                   | None => None end
-                       | None => None end)
-    (fun sw => switch_if sw k).
-
-Definition unpark_code (t : nat) (k : code) : code :=
-  Switch (atomic_u (fun e s => match e_unpark e t with Some e' => Some (e', s) | None => None end) k).
-
-(* ---- Atomic<T> (shuttle-std/src/sync/atomic/mod.rs) ---- *)
-Definition exhale (e : exec) (m : nat) (c : vclock) : option exec := e_update_clock e m c.
-Definition inhale (e : exec) (m : nat) (c : vclock) : option (exec * vclock) :=
-  match e_increment_clock e m with
-  | Some e' => match e_clock e' m with Some mc => Some (e', update c mc) | None => None end
-  | None => None
-  end.
-
-Definition atomic_code (a : nat) (ty : aty) (o : aop) (k : bool -> N -> code) : code :=
-  Switch (Atomic (fun e s =>
-      match me e, get_obj s a with
-      | Some m, Some (OAtomic v c) =>
-        let '(newv, okflag, ret) := a_apply ty o v in
-        let e1 := if a_exhales o then exhale e m c else Some e in
-        match e1 with
-        | None => None
-        | Some e1 =>
-          if a_inhales ty o v then
-            match inhale e1 m c with
-            | Some (e2, c') => Some (e2, set_obj s a (OAtomic (match newv with Some x => x | None => v end) c'), [b2n okflag; ret])
-            | None => None
-            end
-          else Some (e1, set_obj s a (OAtomic (match newv with Some x => x | None => v end) c), [b2n okflag; ret])
-        end
-      | _, _ => None
-      end)
-    (fun a => match a with [f; r] => k (N.eqb f 1) r | _ => Panic end)).
+Definition TAG_CVWAIT : N := 21. Definition TAG_CVNOTIFY : N := 22.
+Definition TAG_SEND : N := 23. Definition TAG_RECV : N := 24. Definition TAG_DROPTX : N := 25. Definition TAG_DROPRX : N := 26.
+Definition TAG_BARRIER : N := 27. Definition TAG_CALLONCE : N := 28. Definition TAG_ISCOMPLETED : N := 29.
+Definition TAG_INIT : N := 30.
 
 (* ---- whole programs ---- *)
 Definition nth_handle (hs : list nat) (h : nat) : option nat := nth_error hs h.
 
-(* guards held by a task: (object, write?) newest first; `kinds` tells mutex guards from rwlock guards *)
+(* guards held by a task: (object, write?) newest first *)
 Fixpoint take_guard (o : nat) (gs : list (nat * bool)) : option (bool * list (nat * bool)) :=
   match gs with
   | [] => None
@@ -133,8 +66,8 @@ Fixpoint take_guard (o : nat) (gs : list (nat * bool)) : option (bool * list (na
                     else match take_guard o r with Some (w', r') => Some (w', (o', w) :: r') | None => None end
   end.
 
-(* guards still held when the body returns are dropped newest first; the object decides which guard it is *)
-Fixpoint drop_guards (gs : list (nat * bool)) (k : code) : code :=
+(* guards still held when a body returns are dropped newest first; the object decides which guard it is *)
+Fixpoint drop_guards (logit : bool) (gs : list (nat * bool)) (k : code) : code :=
   match gs with
   | [] => k
   | (o, w) :: r =>
@@ -143,21 +76,37 @@ Fixpoint drop_guards (gs : list (nat * bool)) (k : code) : code :=
                         | Some (ORwLock _ _ _ _) => Some (e, st, [1%N])
                         | _ => None end)
       (fun a => match a with
-                | [0%N] => mutex_unlock_code o (drop_guards r k)
-                | _ => rw_unlock_code o w (drop_guards r k)
+                | [0%N] => mutex_unlock_code o (if logit then Log TAG_UNLOCK [N.of_nat o] (drop_guards logit r k) else drop_guards logit r k)
+                | _ => rw_unlock_code o w (if logit then Log TAG_RWUNLOCK [b2n w; N.of_nat o] (drop_guards logit r k) else drop_guards logit r k)
                 end)
   end.
 
-Fixpoint comp (fuel : nat) (bodies : list (list op)) (b : nat) : code :=
+(* the harness keeps the liveness of a channel's endpoints in the OCell that follows the channel object:
+   vals = [tx slot 0 alive; tx slot 1 alive; tx slot 2 alive; rx alive] *)
+Definition endpoint_alive (st : store) (ch idx : nat) : bool :=
+  match get_obj st (S ch) with Some (OCell vals _) => N.eqb (nth idx vals 0%N) 1 | _ => false end.
+Definition endpoint_kill (st : store) (ch idx : nat) : store :=
+  match get_obj st (S ch) with
+  | Some (OCell vals c) => set_obj st (S ch) (OCell (list_upd vals idx (fun _ => 0%N)) c)
+  | _ => st end.
+Definition RX_SLOT : nat := 3.
+
+(* comp fuel bodies b fin outer: the code of body b; `outer` are the guards of the enclosing scopes (dropped after the
+   body's own when the body panics); `fin gs` is what follows the body's last operation, given the
+   guards the body still holds.  A thread ends with its END record, the drop of its guards and thread_fn's
+   epilogue; an inline closure (call_once) ends with the drop of its guards and the caller's continuation. *)
+Definition thread_fin (gs : list (nat * bool)) : code := Log TAG_END [] (drop_guards true gs thread_epilogue).
+
+Fixpoint comp (fuel : nat) (bodies : list (list op)) (b : nat) (fin : list (nat * bool) -> code) (outer : list (nat * bool)) : code :=
   match fuel with
   | O => Ret
   | S f =>
     (fix go (ops : list op) (hs : list nat) (js : list nat) (gs : list (nat * bool)) : code :=
        match ops with
-       | [] => Log TAG_END [] (drop_guards gs thread_epilogue)
+       | [] => fin gs
        | o :: r =>
          match o with
-         | PSpawn j => Switch (SpawnNow (comp f bodies j) (fun tid => Log TAG_SPAWN [N.of_nat tid] (go r (hs ++ [tid]) js gs)))
+         | PSpawn j => Switch (SpawnNow (comp f bodies j thread_fin []) (fun tid => Log TAG_SPAWN [N.of_nat tid] (go r (hs ++ [tid]) js gs)))
          | PJoin h => match nth_handle hs h with
                       | Some t => if existsb (Nat.eqb h) js then Panic      (* the JoinHandle was consumed *)
                                   else join_code t (Log TAG_JOIN [N.of_nat t] (go r hs (h :: js) gs))
@@ -171,7 +120,7 @@ Fixpoint comp (fuel : nat) (bodies : list (list op)) (b : nat) : code :=
          | PRand => Rand (fun v => Log TAG_RAND [v] (go r hs js gs))
          | PAtomic a o => atomic_code a u64 o (fun okf ret => Log TAG_ATOMIC [b2n okf; ret] (go r hs js gs))
          | PResetSteps => atomic_u (fun e s => Some (e_reset_step_count e, s)) (Log TAG_RESET [] (go r hs js gs))
-         | PPanic => atomic_u (fun e st => Some (with_panicking e true, st)) (drop_guards gs Panic)   (* unwinding drops the guards *)
+         | PPanic => atomic_u (fun e st => Some (with_panicking e true, st)) (drop_guards false (gs ++ outer) Panic)   (* unwinding drops the guards, innermost scope first *)
          | PSemAcq o n => acquire_blocking o n (fun ok => Log TAG_SEMACQ [b2n ok] (go r hs js gs))
          | PSemTry o n => sem_try_code o n (fun res => Log TAG_SEMTRY [n_of_acq res] (go r hs js gs))
          | PSemRel o n => sem_release_code o n (Log TAG_SEMREL [] (go r hs js gs))
@@ -186,20 +135,52 @@ Fixpoint comp (fuel : nat) (bodies : list (list op)) (b : nat) : code :=
          | PTryLock o => mutex_try_lock_code o (fun res => Log TAG_TRYLOCK [n_of_lock res]
                             (go r hs js (match res with LkWouldBlock => gs | _ => (o, false) :: gs end)))
          | PUnlock o => match take_guard o gs with
-                        | Some (_, gs') => mutex_unlock_code o (Log TAG_UNLOCK [] (go r hs js gs'))
+                        | Some (_, gs') => mutex_unlock_code o (Log TAG_UNLOCK [N.of_nat o] (go r hs js gs'))
                         | None => Panic end
          | PRwLock o w => rw_lock_code o w (fun res => Log TAG_RWLOCK [b2n w; n_of_lock res] (go r hs js ((o, w) :: gs)))
          | PRwTry o w => rw_try_code o w (fun res => Log TAG_RWTRY [b2n w; n_of_lock res]
                             (go r hs js (match res with LkWouldBlock => gs | _ => (o, w) :: gs end)))
          | PRwUnlock o => match take_guard o gs with
-                          | Some (w, gs') => rw_unlock_code o w (Log TAG_RWUNLOCK [b2n w] (go r hs js gs'))
+                          | Some (w, gs') => rw_unlock_code o w (Log TAG_RWUNLOCK [b2n w; N.of_nat o] (go r hs js gs'))
                           | None => Panic end
+         | PCvWait cv m => match take_guard m gs with
+                           | Some (_, gs') => cv_wait_code cv m (fun res => Log TAG_CVWAIT [n_of_lock res] (go r hs js ((m, false) :: gs')))
+                           | None => Panic end
+         | PCvNotify cv all => cv_notify_code cv all (Log TAG_CVNOTIFY [b2n all] (go r hs js gs))
+         | PSend ch slot v =>
+           atomic_b (fun e st => Some (e, st, endpoint_alive st ch slot))
+             (fun alive => if alive then chan_send_code ch v true (fun res => Log TAG_SEND [n_of_send res] (go r hs js gs)) else Panic)
+         | PTrySend ch slot v =>
+           atomic_b (fun e st => Some (e, st, endpoint_alive st ch slot))
+             (fun alive => if alive then chan_send_code ch v false (fun res => Log TAG_SEND [n_of_send res] (go r hs js gs)) else Panic)
+         | PRecv ch =>
+           atomic_b (fun e st => Some (e, st, endpoint_alive st ch RX_SLOT))
+             (fun alive => if alive then chan_recv_code ch true (fun res =>
+                 Log TAG_RECV (match res with RvOk v => [0%N; v] | RvEmpty => [1%N] | RvDisconnected => [2%N] | RvBlock => [3%N] end) (go r hs js gs)) else Panic)
+         | PTryRecv ch =>
+           atomic_b (fun e st => Some (e, st, endpoint_alive st ch RX_SLOT))
+             (fun alive => if alive then chan_recv_code ch false (fun res =>
+                 Log TAG_RECV (match res with RvOk v => [0%N; v] | RvEmpty => [1%N] | RvDisconnected => [2%N] | RvBlock => [3%N] end) (go r hs js gs)) else Panic)
+         | PDropTx ch slot =>
+           atomic_b (fun e st => Some (e, st, endpoint_alive st ch slot))
+             (fun alive => if alive then atomic_u (fun e st => chan_drop_tx e (endpoint_kill st ch slot) ch) (Log TAG_DROPTX [] (go r hs js gs)) else Panic)
+         | PDropRx ch =>
+           atomic_b (fun e st => Some (e, st, endpoint_alive st ch RX_SLOT))
+             (fun alive => if alive then atomic_u (fun e st => chan_drop_rx e (endpoint_kill st ch RX_SLOT) ch) (Log TAG_DROPRX [] (go r hs js gs)) else Panic)
+         | PBarrier b => barrier_wait_code b (fun leader => Log TAG_BARRIER [b2n leader] (go r hs js gs))
+         | PCallOnce o j =>
+           Atomic (fun e st => match once_mutex st o with Some mx => Some (e, st, [N.of_nat mx]) | None => None end)
+             (fun a => match a with
+                       | [mx] => call_once_code o (N.to_nat mx)
+                                   (fun k => Log TAG_INIT [] (comp f bodies j (fun gs' => drop_guards true gs' k) ((N.to_nat mx, false) :: gs ++ outer)))
+                                   (Log TAG_CALLONCE [] (go r hs js gs))
+                       | _ => Panic end)
+         | PIsCompleted o => atomic_b (fun e st => once_is_completed e st o) (fun c => Log TAG_ISCOMPLETED [b2n c] (go r hs js gs))
          end
        end) (nth b bodies []) [] [] []
   end.
 
-Definition compile (bodies : list (list op)) : code := comp (S (length bodies)) bodies 0.
-
+Definition compile (bodies : list (list op)) : code := comp (S (length bodies)) bodies 0 thread_fin [].
 
 (* ---- the scripted scheduler used by the correspondence check ---- *)
 Record script_state := mkScript { sc_script : list (option nat); sc_rnd : N }.
